@@ -93,6 +93,25 @@ def replay_path_batch(case):
                     w.write_segment([gt, ct])
             _check_file(TdmsFile.read(io.BytesIO(buf2.getvalue())), sub, "end-to-end-reused-objects", fails,
                         group_order="first")
+            # a producer that passes channels only, one per segment: the writer declares each group when it first meets
+            # it - also a group whose name differs from an earlier one only in letter case or by a trailing blank
+            tail = chans[-12:]
+            buf3 = io.BytesIO()
+            with TdmsWriter(buf3) as w:
+                for i, (nm, _) in enumerate(tail):
+                    w.write_segment([ChannelObject(nm[0], nm[1], np.array([i, i + 1], dtype=np.int32), {"id": "c%d" % i})])
+            _check_file(TdmsFile.read(io.BytesIO(buf3.getvalue())), tail, "end-to-end-channels-only-stream", fails,
+                        group_order="first")
+            from . import parser as _parser
+            declared = set()
+            for ev in _parser.parse(buf3.getvalue()):
+                for ob in ev.get("objs", []):
+                    if ob["parent"] not in ("", "/") and ob["parent"] not in declared and \
+                            not any(o2["path"] == ob["parent"] for o2 in ev["objs"]):
+                        fails.append(({"kind": "path", "level": "group-object-never-written"},
+                                      {"channel": ob["path"][:80], "group": ob["parent"][:80]}))
+                    declared.add(ob["path"])
+            n += len(tail)
             n += len(sub)
         except Exception as ex:  # noqa
             fails.append(({"kind": "path", "level": "end-to-end-file", "exception": type(ex).__name__},
